@@ -503,16 +503,7 @@ func (x *explorer) emit(st *state, end string, results []*T, loop int, pos token
 	}
 	p := &Path{Guards: st.guards, Effects: st.effects, End: end, Loop: loop, EndPos: pos, Blocks: st.blocks, LoopRange: st.loopRange}
 	for _, r := range results {
-		rv := x.subst(st, r)
-		// a result that is the outcome of a type test already decided on this path ("return isList")
-		if rv != nil && rv.Op == "iskind" && len(rv.Args) == 1 {
-			for _, g := range st.guards {
-				if g.Kind == "kind" && g.Const == rv.Name && g.A != nil && g.A.String() == rv.Args[0].String() {
-					rv = mkConst(fmt.Sprint(!g.Neg), nil)
-					break
-				}
-			}
-		}
+		rv := simplifyBool(st.guards, x.subst(st, r), 0)
 		p.Results = append(p.Results, rv)
 	}
 	for _, l := range st.loops {
@@ -2108,4 +2099,86 @@ func countedIndexPhi(phi *ssa.Phi, h *ssa.BasicBlock, body map[*ssa.BasicBlock]b
 		return false
 	}
 	return body[h.Succs[0]]
+}
+
+// simplifyBool rewrites boolean-valued result terms with what the path already knows: the outcome of a type
+// test or of a comparison that was branched on, and the algebra of == / != with true and false
+// ("return isList", "return inner(...) != negate").
+func simplifyBool(guards []Atom, t *T, depth int) *T {
+	if t == nil || depth > 6 {
+		return t
+	}
+	boolConst := func(x *T) (bool, bool) {
+		if x != nil && x.Op == "const" && (x.Name == "true" || x.Name == "false") {
+			return x.Name == "true", true
+		}
+		return false, false
+	}
+	switch t.Op {
+	case "iskind":
+		if len(t.Args) == 1 {
+			for _, g := range guards {
+				if g.Kind == "kind" && g.Const == t.Name && g.A != nil && g.A.String() == t.Args[0].String() {
+					return mkConst(fmt.Sprint(!g.Neg), nil)
+				}
+			}
+		}
+	case "not":
+		if len(t.Args) == 1 {
+			a := simplifyBool(guards, t.Args[0], depth+1)
+			if v, ok := boolConst(a); ok {
+				return mkConst(fmt.Sprint(!v), nil)
+			}
+			if a != t.Args[0] {
+				return &T{Op: "not", Args: []*T{a}, V: t.V, Typ: t.Typ}
+			}
+		}
+	case "binop":
+		if (t.Name == "==" || t.Name == "!=") && len(t.Args) == 2 {
+			a := simplifyBool(guards, t.Args[0], depth+1)
+			b := simplifyBool(guards, t.Args[1], depth+1)
+			// decided by a branch on the very same comparison
+			for _, g := range guards {
+				if g.Kind != "eq" || g.A == nil || g.B == nil {
+					continue
+				}
+				as, bs := g.A.String(), g.B.String()
+				if (as == a.String() && bs == b.String()) || (as == b.String() && bs == a.String()) {
+					eq := !g.Neg
+					if t.Name == "!=" {
+						eq = !eq
+					}
+					return mkConst(fmt.Sprint(eq), nil)
+				}
+			}
+			av, aok := boolConst(a)
+			bv, bok := boolConst(b)
+			switch {
+			case aok && bok:
+				r := av == bv
+				if t.Name == "!=" {
+					r = !r
+				}
+				return mkConst(fmt.Sprint(r), nil)
+			case bok || aok:
+				other, c := a, bv
+				if aok {
+					other, c = b, av
+				}
+				// x == true, x != false -> x ; x == false, x != true -> !x
+				keep := (t.Name == "==") == c
+				if keep {
+					return other
+				}
+				if v, ok := boolConst(other); ok {
+					return mkConst(fmt.Sprint(!v), nil)
+				}
+				return &T{Op: "not", Args: []*T{other}, V: t.V, Typ: t.Typ}
+			}
+			if a != t.Args[0] || b != t.Args[1] {
+				return &T{Op: "binop", Name: t.Name, Args: []*T{a, b}, V: t.V, Typ: t.Typ, N: t.N}
+			}
+		}
+	}
+	return t
 }
